@@ -708,6 +708,14 @@ func openOutputFile(outputName, inputName string, overwrite bool) (*os.File, err
 	if overwrite == false {
 		output, err := os.OpenFile(outputName, os.O_WRONLY|os.O_CREATE|os.O_EXCL, 0666)
 
+		if err != nil && os.IsNotExist(err) {
+			// The folder does not exist yet (sub-folder of an output directory):
+			// attempt to create the full folder hierarchy to file, as in overwrite mode
+			if err = os.MkdirAll(path.Dir(strings.ReplaceAll(outputName, "\\", "/")), os.ModePerm); err == nil {
+				output, err = os.OpenFile(outputName, os.O_WRONLY|os.O_CREATE|os.O_EXCL, 0666)
+			}
+		}
+
 		if os.IsExist(err) {
 			return nil, errOutputExists
 		}
